@@ -142,7 +142,24 @@ def bury(loop: Any) -> None:
 
 
 def clear_graveyard() -> None:
-    GRAVEYARD.clear()
+    """Let the abandoned tasks of the previous execution be finalized now, quietly (their coroutines are closed by the
+    GC; anything they print at that point is noise from a 'process' that no longer exists)."""
+    import gc
+    import sys
+
+    if not GRAVEYARD:
+        return
+    hook = sys.unraisablehook
+    sys.unraisablehook = lambda *a, **k: None
+    lg = logging.getLogger("asyncio")
+    lvl = lg.level
+    lg.setLevel(logging.CRITICAL + 1)
+    try:
+        GRAVEYARD.clear()
+        gc.collect()
+    finally:
+        sys.unraisablehook = hook
+        lg.setLevel(lvl)
 
 
 def make_yielding(store: Any, only_run_queries: bool = True) -> Any:
